@@ -63,6 +63,9 @@ def drop_caches():
     pathq._cache.clear()
     sym._canon_memo.clear()
     hs._memo.clear()
+    hs._drv_memo.clear()
+    from .rules import names
+    names._memo.clear()
     from .rules import acc
     acc._accepting_memo.clear()
     import gc
